@@ -24,11 +24,13 @@ void h_track(void) {
     void *ptr = nondet_ptr();
     size_t size = nondet_size_t();
     MT_START();
+    g_mt_stack_on = true;
     bool was_key = (ptr == g_mt_key);
     s_alloc_tracer_track(tracer, ptr, size);
     if (g_mt_lock_calls == 0) CANARY("track: level NONE, nothing done");
     if (g_mt_lock_calls == 1) CANARY("track: level BYTES");
-    if (g_mt_lock_calls == 2) CANARY("track: level STACKS");
+    if (g_mt_lock_calls == 2 && g_mt_stack_created) CANARY("track: level STACKS, new stack");
+    if (g_mt_lock_calls == 2 && !g_mt_stack_created) CANARY("track: level STACKS, known stack");
     if (g_mt_lock_calls > 0 && was_key) CANARY("track: the watched address");
     if (g_mt_lock_calls > 0 && !was_key && g_mt_present) CANARY("track: another address, watched one present");
 }
@@ -38,8 +40,10 @@ void h_track_fps1(void) {
     void *ptr = nondet_ptr();
     size_t size = nondet_size_t();
     MT_START();
+    g_mt_stack_on = true;
     s_alloc_tracer_track(tracer, ptr, size);
-    if (g_mt_lock_calls == 2) CANARY("track: level STACKS, one frame per stack");
+    if (g_mt_lock_calls == 2 && g_mt_stack_created) CANARY("track: level STACKS, one frame per stack, new stack");
+    if (g_mt_lock_calls == 2 && !g_mt_stack_created) CANARY("track: level STACKS, one frame per stack, known stack");
 }
 
 void h_untrack(void) {
@@ -77,6 +81,16 @@ void h_calloc(void) {
     if (g_mt_lock_calls > 0 && p == g_mt_key) CANARY("calloc: result is the watched address");
     if (g_mt_lock_calls > 0 && p != g_mt_key && g_mt_present) CANARY("calloc: another address, watched one present");
     if (num > 1 && size > 1) CANARY("calloc: several elements");
+}
+
+void h_calloc1(void) { /* one factor fixed to 1 */
+    struct aws_allocator *allocator;
+    size_t num = nondet_size_t(), size = nondet_size_t();
+    MT_START();
+    void *p = s_trace_mem_calloc(allocator, num, size);
+    if (g_mt_lock_calls == 0) CANARY("calloc: level NONE");
+    if (g_mt_lock_calls > 0 && p == g_mt_key) CANARY("calloc: result is the watched address");
+    if (g_mt_lock_calls > 0 && p != g_mt_key && g_mt_present) CANARY("calloc: another address, watched one present");
 }
 
 void h_release(void) {
